@@ -30,6 +30,7 @@ PrimCand(p) ==
     [] p = "never"   -> {VNull, VNum("1")}
     [] p = "bigint"  -> {VBig("1"), VNum("1"), VStr("1"), VNull}
     [] p = "Date"    -> {VDate("0"), VDate("invalid"), VNum("0"), VStr("1970-01-01"), VObj(<<>>), VNull}
+    [] p = "function" -> {VFn, VObj(<<>>), VStr("a"), VNull}
     [] p = "object"  -> {VObj(<<>>), VObj(<<P("a", VNum("1"))>>), VDate("0"), VArr(<<>>), VFn, VStr("a"), VNull}
 
 NearMiss(v) ==
@@ -44,7 +45,7 @@ PartSamples(part) ==
     [] part.p = "lit"   -> {part.s}
     [] part.p = "bool"  -> {"true", "false", "True"}
     [] part.p = "oneof" -> {part.ss[i] : i \in DOMAIN part.ss} \cup {"zz"}
-    [] part.p = "num"   -> {"1", "12", "0.5", "-1", "1e3", "1.", "", "x"}
+    [] part.p = "num"   -> {"1", "12", "0.5", "-1", "1e3", "1.", ".5", "+1", "-2.5E-1", "0x10", "", "x"}
 
 RECURSIVE TplStrings(_)
 TplStrings(parts) ==
@@ -88,6 +89,8 @@ ObjCand(T, env, f) ==
                         \cup (IF \E j \in DOMAIN b : b[j].key = "zz" THEN {} ELSE {VObj(<<P("zz", VStr("a"))>> \o b)})
                         \cup Plus(b, "__proto__", VStr("a")) \cup Plus(b, "constructor", VNum("1")) \cup Plus(b, "toString", VStr("a"))
                         \cup { VObjC("null", b), VObjC("inst", b), VObj(Reverse(b)) }
+                        \* every property inherited from the prototype (TypeScript: the same structural type)
+                        \cup (IF b # <<>> THEN { VObjC("inh", b) } ELSE {})
                         \cup { VObj(b \o <<P(key, m)>>) : key \in ixKeys, m \in ixMem \cup ixBad }
                       : b \in base }
   IN { VObj(b) : b \in base } \cup vary \cup extras
